@@ -208,7 +208,10 @@ class NPProxy:
 
     def mean(self, a, axis=None, **kw):
         if axis is None and has_sym(a):
-            v = self._r.asarray(a, dtype=object).ravel()
+            v = list(self._r.asarray(a, dtype=object).ravel())
+            if isinstance(a, (_pd.DataFrame, _pd.Series)):
+                # pandas reductions skip missing values
+                v = [i for i in v if not (isinstance(i, float) and i != i)]
             return fold_sum(v) / len(v)
         return self._r.mean(a, axis=axis, **kw)
 
